@@ -76,6 +76,71 @@ type ReplicaSession struct {
 	LastActivity    time.Time                                   // Time of last activity
 	ListenerAddress string                                      // Network address (host:port) the replica is listening on
 	mu              sync.Mutex                                  // Protects session state
+
+	// Responses waiting to be written to the stream by the session's sender goroutine
+	// (sessions served by StreamWAL). Nothing that runs on a client write path ever
+	// waits for the replica: a full queue ends the session instead.
+	sendQ     chan *proto.WALStreamResponse
+	done      chan struct{} // closed when the session is to end
+	closeOnce sync.Once
+}
+
+// sessionQueueLen bounds the responses buffered for one replica
+const sessionQueueLen = 256
+
+// send hands a response to the replica. The caller holds s.mu. For a session served by
+// StreamWAL it never blocks: the response is queued for the sender goroutine, and a replica
+// whose queue is full (it stopped reading its stream) is disconnected. A session without a
+// sender (built by hand) is written to directly.
+func (s *ReplicaSession) send(response *proto.WALStreamResponse) error {
+	if s.sendQ == nil {
+		if err := s.Stream.Send(response); err != nil {
+			return err
+		}
+		s.LastActivity = time.Now()
+		return nil
+	}
+	select {
+	case s.sendQ <- response:
+		return nil
+	default:
+		s.Connected = false
+		s.Active = false
+		s.shutdown()
+		return fmt.Errorf("replica %s does not keep up: send queue full", s.ID)
+	}
+}
+
+// shutdown makes the session's StreamWAL handler and sender goroutine return
+func (s *ReplicaSession) shutdown() {
+	if s.done != nil {
+		s.closeOnce.Do(func() { close(s.done) })
+	}
+}
+
+// sendLoop writes the queued responses to the stream, one at a time. A stream that accepts
+// nothing more blocks this goroutine only; it returns when the handler has returned.
+func (s *ReplicaSession) sendLoop(ctx context.Context) {
+	for {
+		select {
+		case <-ctx.Done():
+			return
+		case <-s.done:
+			return
+		case response := <-s.sendQ:
+			if err := s.Stream.Send(response); err != nil {
+				log.Error("Error sending to replica %s: %v", s.ID, err)
+				s.mu.Lock()
+				s.Connected = false
+				s.mu.Unlock()
+				s.shutdown()
+				return
+			}
+			s.mu.Lock()
+			s.LastActivity = time.Now()
+			s.mu.Unlock()
+		}
+	}
 }
 
 // NewPrimary creates a new primary node for replication
@@ -225,6 +290,8 @@ func (p *Primary) StreamWAL(
 		Active:          true,
 		LastActivity:    time.Now(),
 		ListenerAddress: listenerAddress,
+		sendQ:           make(chan *proto.WALStreamResponse, sessionQueueLen),
+		done:            make(chan struct{}),
 	}
 
 	// Determine compression support
@@ -258,6 +325,9 @@ func (p *Primary) StreamWAL(
 
 	log.Info("Successfully sent session ID %s in stream header", session.ID)
 
+	// The only goroutine that writes to the stream from here on
+	go session.sendLoop(stream.Context())
+
 	// Send initial entries if starting from a specific sequence
 	if req.StartSequence > 0 {
 		if err := p.sendInitialEntries(session); err != nil {
@@ -277,6 +347,9 @@ func (p *Primary) StreamWAL(
 		case <-ctx.Done():
 			// Context was canceled, exit
 			return ctx.Err()
+		case <-session.done:
+			// The replica does not read its stream, or timed out: end the session
+			return status.Error(codes.ResourceExhausted, "replica does not keep up with the stream")
 		case <-ticker.C:
 			// Check if we have new entries to send
 			currentSeq := p.wal.GetNextSequence() - 1
@@ -343,12 +416,11 @@ func (p *Primary) sendUpdatedEntries(session *ReplicaSession) error {
 	}
 
 	// Send to the replica (we're already holding the lock)
-	if err := session.Stream.Send(response); err != nil {
+	if err := session.send(response); err != nil {
 		return fmt.Errorf("failed to send entries: %w", err)
 	}
 
 	log.Info("Successfully sent %d entries to replica %s", len(protoEntries), session.ID)
-	session.LastActivity = time.Now()
 	return nil
 }
 
@@ -523,12 +595,10 @@ func (p *Primary) sendToReplica(session *ReplicaSession, response *proto.WALStre
 	session.mu.Lock()
 	defer session.mu.Unlock()
 
-	// Send response through the gRPC stream
-	if err := session.Stream.Send(clonedResponse); err != nil {
+	// Hand the response to the stream (queued: never waits for the replica)
+	if err := session.send(clonedResponse); err != nil {
 		log.Error("Error sending to replica %s: %v", session.ID, err)
 		session.Connected = false
-	} else {
-		session.LastActivity = time.Now()
 	}
 }
 
@@ -573,11 +643,10 @@ func (p *Primary) sendInitialEntries(session *ReplicaSession) error {
 	session.mu.Lock()
 	defer session.mu.Unlock()
 
-	if err := session.Stream.Send(response); err != nil {
+	if err := session.send(response); err != nil {
 		return fmt.Errorf("failed to send initial entries: %w", err)
 	}
 
-	session.LastActivity = time.Now()
 	return nil
 }
 
@@ -615,11 +684,10 @@ func (p *Primary) resendEntries(session *ReplicaSession, fromSequence uint64) er
 	session.mu.Lock()
 	defer session.mu.Unlock()
 
-	if err := session.Stream.Send(response); err != nil {
+	if err := session.send(response); err != nil {
 		return fmt.Errorf("failed to resend entries: %w", err)
 	}
 
-	session.LastActivity = time.Now()
 	return nil
 }
 
